@@ -1318,7 +1318,8 @@ class Run:
             return gv
         if nm in ("True", "False", "None"):
             return {"True": True, "False": False, "None": None}[nm]
-        if nm in ("NODE", "DEGREE", "FIELD", "DFIELD", "MASK", "LAG", "ADJ", "WEIGHT", "DWEIGHT"):
+        if nm in ("NODE", "DEGREE", "FIELD", "DFIELD", "MASK", "LAG", "ADJ", "WEIGHT", "DWEIGHT", "BOOLTYPE", "INT8TYPE", "INT16TYPE",
+                  "INT32TYPE", "INT64TYPE", "FLOAT32TYPE", "FLOAT64TYPE"):
             return ("dtype", self.mod.ctypedefs.get(nm + "_t", nm))
         return ("builtin", nm)
 
